@@ -38,14 +38,30 @@ theorem viterbi_value_eq_max (m : Hmm) (obs : List Nat) (hS : 0 < m.S) (h : obs 
     obtain ⟨π, hπ, rfl⟩ := List.mem_map.mp ha
     exact hub π hπ
 
+/-- the "zero-aware maximum" of `viterbi_matrices` (comparator closure `cmpZ` under `Iterator::max_by`) picks an
+index below `n` whose product `previous value · transition` is maximal — although the comparator is not a
+consistent order on the products (a zero previous value loses against a non-zero one whose transition is zero) -/
+theorem zero_aware_max (c t : Nat → Nat) (n : Nat) (hn : 0 < n) :
+    selZ c t n < n ∧ ∀ k, k < n → c k * t k ≤ c (selZ c t n) * t (selZ c t n) :=
+  isArgmax_selZ c t n hn
+
+/-- any selector with that property gives a correct Viterbi algorithm (so a different valid tie-break in the
+code keeps the property) -/
+theorem viterbi_max_any_selector (sel : Sel) (hsel : IsArgmax sel) (m : Hmm) (obs : List Nat) (hS : 0 < m.S)
+    (h : obs ≠ []) :
+    (viterbiWith sel m obs).1 ∈ paths m.S obs.length ∧
+    joint m obs (viterbiWith sel m obs).1 = (viterbiWith sel m obs).2 ∧
+    ∀ π ∈ paths m.S obs.length, joint m obs π ≤ (viterbiWith sel m obs).2 :=
+  viterbiWith_spec hsel m hS obs h
+
 /-- **the code mirror** (`viterbi_matrices` + `viterbi_traceback`, which never look at the end weights) is
 Viterbi for the model *without* end term: path and value are optimal for `joint m.noEnd`. -/
 theorem viterbi_code_max (m : Hmm) (obs : List Nat) (hS : 0 < m.S) (h : obs ≠ []) :
     (viterbi m obs).1 ∈ paths m.S obs.length ∧
     joint m.noEnd obs (viterbi m obs).1 = (viterbi m obs).2 ∧
     ∀ π ∈ paths m.S obs.length, joint m.noEnd obs π ≤ (viterbi m obs).2 := by
-  rw [viterbi_eq_viterbiE_noEnd]
-  exact viterbiE_spec m.noEnd hS obs h
+  rw [viterbi_eq_viterbiWith_noEnd]
+  exact viterbiWith_spec isArgmax_selZ m.noEnd hS obs h
 
 /-- for a model without explicit end probabilities the code mirror satisfies the property -/
 theorem viterbi_code_max_of_no_end (m : Hmm) (obs : List Nat) (hS : 0 < m.S) (h : obs ≠ [])
